@@ -151,7 +151,9 @@ def run_check(prop, tier):
     mod = load(prop)
     workers = int(os.environ.get("VERIF_WORKERS", "0") or 0) or min(16, os.cpu_count() or 1)
     caps = getattr(mod, "TIME_CAP", {"quick": 150, "thorough": 1500})
-    cap = float(os.environ.get("VERIF_TIME_CAP", caps.get(tier, 150)))
+    # the cap is a safety valve, not a budget: never below 300 s (quick) so that a slower machine still
+    # completes the same enumeration and reports the same coverage
+    cap = float(os.environ.get("VERIF_TIME_CAP", max(caps.get(tier, 150), 300 if tier == "quick" else 1500)))
     deadline = t0 + cap
 
     known = _findings.load(prop)
